@@ -116,8 +116,12 @@ def run(ctx):
             completed += 1
             if r.get("elapsed_ms", 0) > 3000:
                 slow += 1
+    # the file scheduler: it may decline only when nothing may be started (C03_scheduler_no_starvation), whatever the clock says
+    from checks import c17
+    sched, smodel, sbad = c17.sched_differential(ctx, pure, "C03")
     ctx.coverage.update({
-        "evaluations": len(bcases) + len(ncases) + len(cases), "distinct_nontrivial": completed,
+        "scheduler_histories": len(sched), "scheduler_disagreements": len(sbad),
+        "evaluations": len(bcases) + len(ncases) + len(cases) + len(sched), "distinct_nontrivial": completed,
         "rule": "grid files {0,1,2,5} x chunks-per-file {0,1,2,5} x streams {1,2,4,8} x connections {1,2,4} x resume {off,on,on-after-partial} over netsim with QUIC stream-visibility semantics "
                 "(quick: one third sampled; thorough: complete), seeded points of the same grid over real loopback QUIC, trees with unusual legal names; the same with FileBegin handling delayed by 40 ms / 450 ms (beyond the sender's 300 ms resume grace: chunk frames overtake it) and every data reader held for 150 ms / 700 ms between its state look-up and its wait for FileBegin (lost wake-up window); files of 32-128 chunks with FileBegin held 450 ms and readers not held (several readers parked for one file, all must be woken); every run must end with both endpoints nil inside the watchdog. "
                 "budget arithmetic exhaustive on files<12, requested<12, connections<6 plus random; validateRelPath on legal odd names. non-trivial = completed end-to-end runs",
